@@ -432,13 +432,13 @@ class CodepointStream(Stream):
     name = "codepoints"
     has_model = False
 
-    POOL = ["a", "é", "ж", "€", "\U0001F600", "\ud800", "\udfff", "\udc80", "\U0010FFFF", "　", "\x00", "😀"]
+    POOL = ["a", "é", "ж", "€", "\U0001F600", "\ud800", "\udfff", "\udc80", "\U0010FFFF", "　", "\x00", "😀", "\r", "\r\n", "\n", "\x85", "\u2028"]
 
     def cases(self, ctx):
         rng = ctx.rng_for("codepoints")
         out = []
         tpls = ["{{ x }}", "{% capture c %}{{ x }}{% endcapture %}{{ c }}", "{% for i in (1..2) %}{% ifchanged %}{{ x }}{% endifchanged %}{% endfor %}",
-                "{{ x | upcase }}{{ y }}", "{% assign z = x | append: y %}{{ z }}"]
+                "{{ x | upcase }}{{ y }}", "{% assign z = x | append: y %}{{ z }}", "a\r\nb{{ x }}\rc{{ y }}\n"]
         for i in range(ctx.scale(60, 400)):
             x = "".join(rng.choice(self.POOL) for _ in range(rng.range(1, 4)))
             y = "".join(rng.choice(self.POOL) for _ in range(rng.range(0, 2)))
